@@ -190,10 +190,10 @@ def _check_case(U, case):
     if fn == "fuse_slice∘normalize_index":
         # x[a][b] == x[fuse_slice(normalize_index(a), normalize_index(b))]
         a, b = build(plain(case["a"])), build(plain(case["b"]))
-        xa = x[a]
         try:
+            xa = x[a]
             want = xa[b]
-        except IndexError:
+        except (IndexError, ValueError):  # NumPy itself refuses the pair (out of bounds, zero step): outside the claim
             return None
         try:
             na = _ni(U, case["a"], n)
